@@ -27,6 +27,8 @@ func init() {
 			ruleScanUnit(r)
 			ruleParserUniqueness(r)
 			ruleRangeLayouts(r)
+			ruleUnitEvaluators(r)
+			ruleSingleGrouping(r)
 		},
 	})
 }
